@@ -152,13 +152,20 @@ P("C12",
              "sides fail or both succeed; on success they agree on one offered cipher and every byte written by either side (initial payload first) is read unchanged; "
              "different keys never complete; matching keys with intersecting offer/policy always complete.",
   level_note="Trusted: harness/refmse (written from the MSE specification; DH and RC4 primitives from the Go standard library), harness/chunkconn. "
-             "rain's own pad lengths are random (crypto/rand) and only sampled; the reference side's pads are steered. Policy clauses are decided by the btconn/session units when listed.",
+             "rain's own pad lengths are random (crypto/rand) and only sampled; the reference side's pads are steered. The policy clause (forced encryption, plaintext retry) is decided by c12.policy at the scripted end of real connections.",
   technique="property-based testing (rapid): differential/interoperability against an independent reference endpoint + round-trip of the byte stream",
   rule="pairing x key pair x offer x policy x steered pads x initial payload x read schedules x post-handshake writes; non-trivial = a reference pairing with a pad at a boundary "
        "value, or any fragmented read schedule",
   assumptions=["fault-free transport; a side that fails closes its end (as the real callers do)"],
   units=[
    U("c12.mse", "c12", "TestMSE", "handshake agreement + byte-exact duplex stream for all pads/chunkings/keys/offers", Q(3000, 6), T(400000), min_nontrivial_frac=0.4, shrinktime="10s"),
+   U("c12.policy", "c12", "TestPolicy",
+     "a real session under each consistent combination of disable-outgoing / force-outgoing / force-incoming dials 1-5 scripted listeners (plaintext only, MSE selecting RC4, MSE "
+     "preferring plaintext, MSE selecting plaintext although it was not offered, both) and is dialed by 1-5 scripted peers (plaintext, or MSE offering plaintext / RC4 / both); "
+     "every connection is recorded at the scripted end. Forced outgoing: never a plaintext handshake (the retry included), never plaintext in crypto_provide, no connection in use "
+     "with a cipher other than RC4; forced incoming: a plaintext handshake is never answered and no connection is accepted with the plaintext cipher; a cipher that was not offered "
+     "is never in use. Non-trivial = some direction is forced",
+     Q(64, 16, 600), T(2400, 16), shrinktime="20s"),
   ])
 
 P("C18",
